@@ -87,7 +87,8 @@ def fieldP : P Field := do
       else failure : P Card)
   let o ← (if oneof == "-" then pure none
     else match ((oneof.drop 1).toString).toNat? with
-      | some n => pure (some n)
+      -- "o<i>" = real oneof i; "p<i>" = proto3 optional (synthetic, one member): numbered from 1000
+      | some n => pure (some (if oneof.startsWith "p" then 1000 + n else n))
       | none => failure : P (Option Nat))
   pure { name := name, json := json, number := num, kind := kind, card := c, presence := pres == "1", oneof := o }
 
@@ -337,7 +338,9 @@ def judge (c : Case) (orc : Oracle) (stream : Bool) (dec : Dec) (impl : Res) : S
       | some ee =>
         if !errorAllowed c.sch c.root c.bd dec stream ee then some s!"error-code {e} not permitted here"
         else match sp with
-          | some (.ok _) => some s!"rejected a request the binding rules accept: impl=err:{e} spec={specName sp}"
+          | some (.ok _) =>
+            let tag := if pathVarOverBodyOptional c.sch c.root c.bd dec c.rq then "path-variable-over-body-optional: " else ""
+            some s!"{tag}rejected a request the binding rules accept: impl=err:{e} spec={specName sp}"
           | some (.error se) => if se == ee then none else some s!"wrong error impl=err:{e} spec={specName sp}"
           | none => none
     | .ok m =>
